@@ -485,11 +485,12 @@ func (req *Request) getDistributedResponse(ctx context.Context) (*Response, erro
 
 	// Cluster mode (don't send this request; send sub-requests, build response)
 	var waitGroup sync.WaitGroup
-	collectedDatasets := make(chan ResultSet, len(req.lmd.nodeAccessor.nodeBackends))
-	collectedFailedHashes := make(chan map[string]string, len(req.lmd.nodeAccessor.nodeBackends))
+	allNodeBackends := req.lmd.nodeAccessor.NodeBackends()
+	collectedDatasets := make(chan ResultSet, len(allNodeBackends))
+	collectedFailedHashes := make(chan map[string]string, len(allNodeBackends))
 	// number of matching rows regardless of limits, as every node counted them
-	collectedTotals := make(chan int, len(req.lmd.nodeAccessor.nodeBackends))
-	for nodeID, nodeBackends := range req.lmd.nodeAccessor.nodeBackends {
+	collectedTotals := make(chan int, len(allNodeBackends))
+	for nodeID, nodeBackends := range allNodeBackends {
 		node := req.lmd.nodeAccessor.Node(nodeID)
 		// limit to requested backends if necessary
 		// nodeBackends: all backends handled by current node
@@ -582,8 +583,8 @@ func (req *Request) getDistributedResponse(ctx context.Context) (*Response, erro
 	close(collectedDatasets)
 
 	// Double-check that we have the right number of datasets
-	if len(collectedDatasets) != len(req.lmd.nodeAccessor.nodeBackends) {
-		err := fmt.Errorf("got %d instead of %d datasets", len(collectedDatasets), len(req.lmd.nodeAccessor.nodeBackends))
+	if len(collectedDatasets) != len(allNodeBackends) {
+		err := fmt.Errorf("got %d instead of %d datasets", len(collectedDatasets), len(allNodeBackends))
 
 		return nil, err
 	}
